@@ -990,6 +990,9 @@ def helix_awk(*args, **kwargs) -> HelixAwkwardArray:
         pivot = kwargs.pop("pivot", (0, 0, 0))
         if not isinstance(pivot, ak.Array):
             pivot = _regularize_obj_position(pivot)
+        else:
+            # a record OF coordinate lists must not broadcast against the list of position records
+            pivot = ak.zip({"x": pivot.x, "y": pivot.y, "z": pivot.z}, with_name="Vector3D")
 
         # compute helix parameters
         kappa = charge / momentum.pt
